@@ -55,7 +55,6 @@ import (
 const (
 	c20Poll     = 30 * time.Second
 	c20RaftTO   = 2 * time.Second
-	c20ReadSQL0 = `SELECT COUNT(*) AS n, MAX(id) AS m FROM t`
 	c20QueueTO  = "4s"
 	c20NumNodes = 3
 )
@@ -215,6 +214,7 @@ type c20Cluster struct {
 	failErr any // the leader's own result for the failing statement
 	dead    bool
 
+	plainReads  bool          // [move] which node is leader while the read runs is up to the race: leave the per-node row out
 	mark        int           // literal put into the read statement of the step being run (0: none)
 	slowN       int64         // size of the slow statement, calibrated on this cluster's leader
 	slowTook    time.Duration // what it took there
@@ -222,6 +222,11 @@ type c20Cluster struct {
 }
 
 var errC20Infra = errors.New("cluster infrastructure fault")
+
+var (
+	c20LogAdvancedMu sync.Mutex
+	c20LogAdvanced   = map[string]int{}
+)
 
 func c20NewCluster(t *testing.T) (c *c20Cluster, err error) {
 	c = &c20Cluster{t: t, client: &http.Client{Timeout: 60 * time.Second,
@@ -258,6 +263,36 @@ func c20NewCluster(t *testing.T) (c *c20Cluster, err error) {
 	c.rows, c.maxID, c.lastV = 1, 1, "seed"
 	if err := c.settle(); err != nil {
 		panic(err)
+	}
+	// one row that every node computes for itself (random() left as it is): the nodes' copies legitimately differ
+	{
+		req, _ := http.NewRequest("POST", "http://"+ldr.APIAddr+"/db/execute?norwrandom", strings.NewReader(c20JSON([]string{`CREATE TABLE r (id INTEGER PRIMARY KEY, v INTEGER)`, `INSERT INTO r(id, v) VALUES(1, random())`})))
+		req.Header.Set("Content-Type", "application/json")
+		req.SetBasicAuth("rw", "pw")
+		resp, err := c.client.Do(req)
+		if err != nil {
+			panic(err)
+		}
+		b, _ := io.ReadAll(resp.Body)
+		resp.Body.Close()
+		if resp.StatusCode != 200 || strings.Contains(string(b), "error") {
+			panic(fmt.Sprintf("table r: %d %s", resp.StatusCode, b))
+		}
+		if err := c.settle(); err != nil {
+			panic(err)
+		}
+		vals := map[int64]bool{}
+		for _, n := range c.nodes {
+			qr := &proto.QueryRequest{Request: &proto.Request{Statements: []*proto.Statement{{Sql: `SELECT v FROM r WHERE id = 1`}}}, Level: proto.ConsistencyLevel_NONE}
+			rows, _, _, err := n.Store.Query(context.Background(), qr)
+			if err != nil || len(rows) != 1 || len(rows[0].Values) != 1 {
+				panic(fmt.Sprintf("table r on n%d: %v %v", n.idx, err, rows))
+			}
+			vals[rows[0].Values[0].Parameters[0].GetI()] = true
+		}
+		if len(vals) != len(c.nodes) {
+			panic(fmt.Sprintf("the nodes' random rows do not differ: %v", vals))
+		}
 	}
 	// the leader's own answer to the failing statement, asked directly
 	st, _, body, err := c.send(ldr, c20Step{Kind: "execfail", Cred: "full"}, "")
@@ -502,13 +537,16 @@ var c20Kinds = map[string]c20KindInfo{
 	"qstrong":  {[]string{"query"}, true, false, true, "/db/query"},
 	"qweak":    {[]string{"query"}, true, false, false, "/db/query"},
 	"qnone":    {[]string{"query"}, false, false, false, "/db/query"},
-	"reqw":     {[]string{"query", "execute"}, true, true, true, "/db/request"},
-	"reqs":     {[]string{"query", "execute"}, true, false, true, "/db/request"},
-	"reqmix":   {[]string{"query", "execute"}, true, true, true, "/db/request"},
-	"queued":   {[]string{"execute"}, true, true, true, "/db/execute"},
+	// linearizable: on the leader either a heartbeat round or (first one of a term) a strong read: not necessarily a log entry
+	"qlin":   {[]string{"query"}, true, false, false, "/db/query"},
+	"reqlin": {[]string{"query", "execute"}, true, false, false, "/db/request"},
+	"reqw":   {[]string{"query", "execute"}, true, true, true, "/db/request"},
+	"reqs":   {[]string{"query", "execute"}, true, false, true, "/db/request"},
+	"reqmix": {[]string{"query", "execute"}, true, true, true, "/db/request"},
+	"queued": {[]string{"execute"}, true, true, true, "/db/execute"},
 }
 
-var c20KindOrder = []string{"exec", "execfail", "qstrong", "qweak", "qnone", "reqw", "reqs", "reqmix"}
+var c20KindOrder = []string{"exec", "execfail", "qstrong", "qweak", "qnone", "qlin", "reqw", "reqs", "reqlin", "reqmix"}
 
 func c20UserPass(s c20Step, target *c20Node) (u, p string, has bool) {
 	switch s.Cred {
@@ -551,7 +589,7 @@ func (c *c20Cluster) send2(n *c20Node, s c20Step, tag string) (status int, hdr h
 		q.Set("redirect", "")
 	}
 	ins := fmt.Sprintf(`INSERT INTO t(v) VALUES('%s')`, tag)
-	c20ReadSQL := c.readSQL()
+	c20ReadSQL := c.readSQL(s.Kind)
 	if s.Slow {
 		// a statement that keeps the leader busy far longer than the caller is prepared to wait
 		ins = fmt.Sprintf(`INSERT INTO s(v) SELECT '%s' FROM (%s) WHERE n > 0`, tag, c.slowSQL())
@@ -573,6 +611,14 @@ func (c *c20Cluster) send2(n *c20Node, s c20Step, tag string) (status int, hdr h
 	case "reqs":
 		method, payload = "POST", c20JSON([]string{c20ReadSQL})
 		q.Set("level", "strong")
+	case "qlin":
+		method = "GET"
+		q.Set("level", "linearizable")
+		q.Set("linearizable_timeout", "30s")
+		q.Set("q", c20ReadSQL)
+	case "reqlin":
+		method, payload = "POST", c20JSON([]string{c20ReadSQL})
+		q.Set("level", "linearizable")
 	case "reqmix":
 		method, payload = "POST", c20JSON([]string{ins, c20ReadSQL})
 	case "queued":
@@ -609,11 +655,19 @@ func c20JSON(v any) string {
 	return string(b)
 }
 
-func (c *c20Cluster) readSQL() string {
-	if c.mark == 0 {
-		return c20ReadSQL0
+// readSQL is the read statement of a step. Except for a read at level none (which
+// the asked node may serve itself) it also returns the row of table r, which was
+// written with random() under norwrandom: every node holds its own value there, so
+// an answer computed from the asked node's database instead of the leader's differs.
+func (c *c20Cluster) readSQL(kind string) string {
+	cols := "COUNT(*) AS n, MAX(id) AS m"
+	if kind != "qnone" && !c.plainReads {
+		cols += ", (SELECT v FROM r WHERE id = 1) AS rv"
 	}
-	return fmt.Sprintf(`SELECT COUNT(*) AS n, MAX(id) AS m, %d AS k FROM t`, c.mark)
+	if c.mark != 0 {
+		cols += fmt.Sprintf(", %d AS k", c.mark)
+	}
+	return "SELECT " + cols + " FROM t"
 }
 
 func (c *c20Cluster) slowSQL() string {
@@ -671,8 +725,8 @@ func (c *c20Cluster) calibrate() error {
 
 // leaderRead asks the leader itself, directly, for its answer to the read statement
 // (level none: no log entry), through the endpoint family the step used.
-func (c *c20Cluster) leaderRead(ldr *c20Node, unified bool) (any, error) {
-	c20ReadSQL := c.readSQL()
+func (c *c20Cluster) leaderRead(ldr *c20Node, unified bool, kind string) (any, error) {
+	c20ReadSQL := c.readSQL(kind)
 	var req *http.Request
 	if unified {
 		req, _ = http.NewRequest("POST", "http://"+ldr.APIAddr+"/db/request?level=none", strings.NewReader(c20JSON([]string{c20ReadSQL})))
@@ -763,7 +817,22 @@ func (c *c20Cluster) run(k0 *c20Checker, s c20Step, ctx string, replay any) (out
 	if err != nil {
 		return "", err
 	}
-	c.takeAll()
+	if _, _, ev := c.takeAll(); ev > 0 {
+		// leadership moved by itself since the last step: the new leader's no-op entry may still be uncommitted
+		if err := c.flushLog(); err != nil {
+			return "", err
+		}
+		if err := c.settle(); err != nil {
+			return "", err
+		}
+		c.takeAll()
+		if ldr, err = c.leader(); err != nil {
+			return "", err
+		}
+		if target, err = c.role(s.Target); err != nil {
+			return "", err
+		}
+	}
 	ciB, _ := ldr.Store.CommitIndex()
 	c.seq++
 	tag := fmt.Sprintf("w%d", c.seq)
@@ -851,14 +920,14 @@ func (c *c20Cluster) run(k0 *c20Checker, s c20Step, ctx string, replay any) (out
 				wantRes = []any{wr}
 			case "execfail":
 				wantRes, _ = c.failErr.([]any)
-			case "qstrong", "qweak", "qnone", "reqs":
-				ref, err := c.leaderRead(ldr, s.Kind == "reqs")
+			case "qstrong", "qweak", "qnone", "qlin", "reqs", "reqlin":
+				ref, err := c.leaderRead(ldr, strings.HasPrefix(s.Kind, "req"), s.Kind)
 				if err != nil {
 					return "", err
 				}
 				wantRes = []any{ref}
 			case "reqmix":
-				ref, err := c.leaderRead(ldr, true)
+				ref, err := c.leaderRead(ldr, true, s.Kind)
 				if err != nil {
 					return "", err
 				}
@@ -887,6 +956,16 @@ func (c *c20Cluster) run(k0 *c20Checker, s c20Step, ctx string, replay any) (out
 		k.vio("not-through-leaders-log", s, ctx, fmt.Sprintf("the leader's commit index stayed at %d: the request was not executed through the leader (%s)", ciA, got), replay)
 	}
 	if !executes && ciA != ciB {
+		// The only spontaneous log entry is the no-op of a leader elected behind the harness's back (its
+		// leadership notifications can arrive late on a loaded machine). A refusal that really executes
+		// does so every time: the first sighting in a history only makes the history run again.
+		c20LogAdvancedMu.Lock()
+		c20LogAdvanced[ctx]++
+		first := c20LogAdvanced[ctx] == 1
+		c20LogAdvancedMu.Unlock()
+		if first {
+			return "", fmt.Errorf("%w: leader's commit index moved from %d to %d during a request that must not execute (%s); repeating to tell an election from a defect", errC20Infra, ciB, ciA, s)
+		}
 		k.vio("refused-but-leader-log-advanced", s, ctx, fmt.Sprintf("outcome must be %s, yet the leader's commit index went from %d to %d (%s)", want, ciB, ciA, got), replay)
 	}
 
@@ -1015,7 +1094,7 @@ func TestVerif_C20(t *testing.T) {
 	if r.Thorough() {
 		creds = append(creds, "lacking2")
 	}
-	r.Rule("requests: kind {execute insert, execute failing insert, query strong|weak|none, unified insert, unified strong select, unified insert+select} x node asked {leader, voting follower, non-voter} x redirect {off,on} x credentials {none, wrong password, user lacking a needed permission, user with all permissions, user with exactly the permission needed, user only the asked node knows} over HTTP on a live 3-node cluster with credential stores. [single] each request with leadership where it was born and again after one and two leadership transfers. [pairs] histories step1 ; leadership transfer ; step2 with step1 over one request per forwarding channel (execute, query, unified) x node asked and step2 over kind x node asked x redirect (thorough: step1 over kind x node asked, step2 also x credentials {with the permissions, none, only the asked node knows}). [slow] a strong query | unified strong select | execute | unified write whose statement keeps the leader busy ~8x longer than the timeout= the caller allows (statement sized by measuring it on the leader), sent through the follower | the non-voter, followed by three fast, mutually distinct requests of one kind {execute, query strong, unified write, unified strong select, query weak} through the same node, each judged by the usual oracle; the slow write may be applied at most once. [queued] queued writes (queue+wait) x node asked x redirect x credentials, on clusters of their own. [move] a write|strong read|unified write sent to each node while a leadership transfer is started 0/1/5/20 ms earlier or later. distinct = (history, outcome of each step)")
+	r.Rule("requests: kind {execute insert, execute failing insert, query strong|weak|none|linearizable, unified insert, unified strong select, unified linearizable select, unified insert+select} x node asked {leader, voting follower, non-voter} x redirect {off,on} x credentials {none, wrong password, user lacking a needed permission, user with all permissions, user with exactly the permission needed, user only the asked node knows} over HTTP on a live 3-node cluster with credential stores. [single] each request with leadership where it was born and again after one and two leadership transfers. [pairs] histories step1 ; leadership transfer ; step2 with step1 over one request per forwarding channel (execute, query, unified) x node asked and step2 over kind x node asked x redirect (thorough: step1 over kind x node asked, step2 also x credentials {with the permissions, none, only the asked node knows}). [slow] a strong query | unified strong select | execute | unified write whose statement keeps the leader busy ~8x longer than the timeout= the caller allows (statement sized by measuring it on the leader), sent through the follower | the non-voter, followed by three fast, mutually distinct requests of one kind {execute, query strong, unified write, unified strong select, query weak} through the same node, each judged by the usual oracle; the slow write may be applied at most once. [queued] queued writes (queue+wait) x node asked x redirect x credentials, on clusters of their own. [move] a write|strong read|unified write sent to each node while a leadership transfer is started 0/1/5/20 ms earlier or later. distinct = (history, outcome of each step)")
 	r.Assume("one client and one request at a time (except [move]); raft's own interleavings are not controlled and no oracle depends on them")
 	r.Note("a history during which leadership moved by itself, or after which the nodes did not converge within 30 s, is repeated on a new cluster")
 
@@ -1306,6 +1385,8 @@ func (c *c20Cluster) runMove(k0 *c20Checker, s c20Step, offsetMs int, ctx string
 		}
 	}()
 	ki := c20Kinds[s.Kind]
+	c.plainReads = true
+	defer func() { c.plainReads = false }()
 	target, err := c.role(s.Target)
 	if err != nil {
 		return "", err
@@ -1405,7 +1486,7 @@ func (c *c20Cluster) runMove(k0 *c20Checker, s c20Step, offsetMs int, ctx string
 		case "exec", "reqw":
 			wantRes = []any{wr}
 		case "qstrong":
-			ref, err := c.leaderRead(ldr, false)
+			ref, err := c.leaderRead(ldr, false, s.Kind)
 			if err != nil {
 				return "", err
 			}
